@@ -183,9 +183,12 @@ def op_strategy(draw, specs, mode):
         if t in M.FIXED_TYPES and n > 1 and draw(st.integers(0, 2)) == 0:
             k = draw(st.integers(0, n - 1)) if mode == 'valid' else draw(st.sampled_from([0, 1, n - 1, n, n + 1]))
             op['offset'] = k * rc.tsize(t)
-            if mode == 'edge' and draw(st.integers(0, 5)) == 0:
-                # byte offsets in the upper half of the 32-bit range (a whole number of elements below 2**32)
+            if mode == 'edge' and draw(st.integers(0, 2)) == 0:
+                # byte offsets in the upper half of the 32-bit range (a whole number of elements below 2**32), addressed from the
+                # tag's last element (where an offset misread as negative would land inside the tag)
                 op['offset'] = (2 ** 32 - draw(st.integers(1, 6)) * rc.tsize(t)) if draw(st.booleans()) else 2 ** 31
+                if draw(st.booleans()):
+                    op['elem'], op['count'] = L - 1, 1
     if svc in ('write_tag', 'write_frag'):
         rt = draw(st.sampled_from(_request_types_for(t, mode)))
         op['type'] = rt
@@ -198,9 +201,11 @@ def op_strategy(draw, specs, mode):
                     k = draw(st.sampled_from([n, n + 1]))
                 op['offset'] = k * rc.tsize(rt)
                 nvals = max(1, min(700, n - k)) if k < n else 1
-                if mode == 'edge' and draw(st.integers(0, 5)) == 0:
+                if mode == 'edge' and draw(st.integers(0, 2)) == 0:
                     op['offset'] = (2 ** 32 - draw(st.integers(1, 6)) * rc.tsize(rt)) if draw(st.booleans()) else 2 ** 31
-                    nvals = draw(st.integers(1, 2))
+                    nvals = 1
+                    if draw(st.booleans()):
+                        op['elem'], op['count'] = L - 1, 1
                 if nvals > 1:
                     nvals = draw(st.integers(1, nvals))
         nvals = max(1, nvals)
@@ -529,7 +534,19 @@ def pred_tcp(case, stats, pid):
         if _TCP.get('pid') == os.getpid():
             raise common.HarnessError('one TCP configuration per process')
         sim.TcpServer._started = False
-        _TCP.update(pid=os.getpid(), key=key, backend=TcpBackend(case['specs']))
+        _TCP.update(pid=os.getpid(), key=key, backend=None)
+        try:
+            _TCP['backend'] = TcpBackend(case['specs'])
+        except (AssertionError, RuntimeError) as exc:
+            _TCP['failed'] = '%s: %s' % (type(exc).__name__, str(exc)[:200])
+    if _TCP.get('backend') is None:
+        # main() was given a tag configuration inside the documented domain (ISO-8859-1 names, the 13 element types, @c/i/a
+        # addresses) and the simulator does not start or cannot serve its first session
+        stats.case(case, classes=['tcp:configuration-refused'])
+        stats.fail('tcp-history', 'tcp:simulator-cannot-serve-this-tag-configuration', case,
+                   observed={'error': _TCP.get('failed'), 'tags': [sim.tag_arg(sp) for sp in case['specs']]},
+                   expected='the simulator starts and registers a session')
+        return
     run_history(case, stats, pid, 'tcp-history', backend=_TCP['backend'])
 
 
